@@ -52,6 +52,8 @@ def _cases(draw):
     form = gen.build_form(draw, prof, g=g)
     if g.p("_", 0.5):
         form["nodes"] = noise(g, form["nodes"])
+    if g.p("_", 0.05):
+        form.setdefault("settings", {})["flat"] = g.pick(["no", "false", "FALSE", "No"])      # a yes/no setting, switched off
     if g.p("_", 0.15):
         form["nodes"].append({"k": "q", "c": {"type": "audit", "name": "audit"} if g.p("_", 0.5) else {"type": "audit"}})
     return {"form": form}
